@@ -80,6 +80,7 @@ pub fn run(file: &str) {
             continue;
         }
         let notifies = Arc::new(AtomicUsize::new(0));
+        nucleo::verif::take_uninit_reads();
         let n2 = notifies.clone();
         let run_ctl = sched::new_ctl(vec![]);
         sched::set_global(Some(run_ctl.clone()));
@@ -99,6 +100,12 @@ pub fn run(file: &str) {
         let mut obs: Vec<String> = Vec::new();
         for ev in line.split(';') {
             let p: Vec<&str> = ev.trim().split(' ').collect();
+            // once a thread is blocked where the schedule did not expect it (the implementation has
+            // diverged from the model) the rest of the schedule is meaningless
+            if obs.last().map_or(false, |o: &String| o == "BLOCKED" || o == "ABORTED") {
+                obs.push("ABORTED".into());
+                continue;
+            }
             match p[0] {
                 "push" => {
                     let t: u64 = p[1].parse().unwrap();
@@ -196,7 +203,7 @@ pub fn run(file: &str) {
                 }
                 "run" => {
                     // the run must be parked (wait a little for the pool thread to reach run.start)
-                    match runner.wait_parked(3000) {
+                    match runner.wait_parked(2500) {
                         St::Parked(site, _) => {
                             runner.go();
                             if site == "run.done" {
@@ -204,7 +211,7 @@ pub fn run(file: &str) {
                                 std::thread::sleep(std::time::Duration::from_millis(2));
                                 obs.push("Yidle".into());
                             } else {
-                                obs.push(show(&runner.wait_parked(5000)));
+                                obs.push(show(&runner.wait_parked(2500)));
                             }
                         }
                         _ => obs.push("NORUN".into()),
@@ -226,13 +233,14 @@ pub fn run(file: &str) {
                         let ptxt = ptxt.join(" ");
                         let pid = PATTERNS.iter().position(|t| *t == ptxt).map_or(-1, |x| x as i64);
                         obs.push(format!(
-                            "O p={} c={} m={} d={} inj={} n={}",
+                            "O p={} c={} m={} d={} inj={} n={} u={}",
                             pid,
                             snap.item_count(),
                             if ms.is_empty() { "-".to_string() } else { ms.join(",") },
                             if data.is_empty() { "-".to_string() } else { data.join(",") },
                             nucleo.active_injectors(),
-                            notifies.load(Ordering::SeqCst)
+                            notifies.load(Ordering::SeqCst),
+                            nucleo::verif::take_uninit_reads()
                         ));
                     }
                 }
